@@ -30,6 +30,8 @@ def gen_value(kind, sizes, rng):
     return rng.rand(dim(args[0]), dim(args[1])) + 0.1
   if name == 'pvec':
     return rng.rand(dim(args[0])) + 0.1
+  if name == 'bvec':
+    return rng.rand(dim(args[0])) > 0.5
   if name == 'pm1':
     return rng.choice([-1.0, 1.0], size=dim(args[0]))
   if name == 'ten':
